@@ -61,9 +61,15 @@ def drawings():
 
 def configs(tier):
     out = []
-    for p in (1, 2, 3, 4, 5):
+    T = tier == "thorough"
+    for p in ((1, 2, 3, 4, 5, 6) if T else (1, 2, 3, 4, 5)):
         out.append(("real", {"precision": p}))
-    for p in (2, 3, 4):
+    if T:
+        for polar in (False, True):
+            out.append(("single_frequency_complex", {"w": 3.0, "precision": 3, "polar": polar, "deg": polar}))
+        for sin in (False, True):
+            out.append(("time_domain", {"w": 3.0, "sin": sin, "deg": True, "hertz": sin}))
+    for p in ((1, 2, 3, 4, 5, 6) if T else (2, 3, 4)):
         for polar in (False, True):
             for deg in ((False, True) if polar else (False,)):
                 out.append(("complex", {"precision": p, "polar": polar, "deg": deg}))
